@@ -116,7 +116,8 @@ class Scanner:
                 break
 
     def error(self, message: str) -> Never:
-        token = Token(TokenKind.ERROR, self.grammar[self.pos], self.start, self.grammar)
+        value = self.grammar[self.pos] if self.pos < len(self.grammar) else ""
+        token = Token(TokenKind.ERROR, value, self.start, self.grammar)
         raise PestGrammarSyntaxError(message, token=token)
 
     def scan_grammar(self) -> StateFn | None:
